@@ -106,7 +106,7 @@ func c13MinPenalty(streak int) time.Duration {
 
 // c13RunBucket executes a history on one tokenBucket.
 func c13RunBucket(c c13Case, log *[]string) (viol string, nontrivial bool, classes []string) {
-	tb := newTokenBucket(float64(c.Capacity), c.Rate)
+	tb := veriflib.CallAs[*tokenBucket](newTokenBucket, float64(c.Capacity), c.Rate)
 	start := time.Now()
 	h := &c13Host{}
 	// Wait() has no cancellation: whatever the verdict, release every remaining waiter before leaving the bubble
